@@ -83,11 +83,17 @@ Definition w_openat_follow (dirfd : Z) (path : bytes) (flags mode : N) : prog (r
 Definition w_openat (dirfd : Z) (path : bytes) (flags mode : N) : prog (result Z N) :=
   w_openat_follow dirfd path (N.lor flags OPENAT_NOFOLLOW_FORCED) mode.
 
+(* the flags syscalls::openat2 adds: O_CLOEXEC always; O_NOCTTY unless O_PATH is set (openat2
+   refuses O_NOCTTY together with O_PATH, which cannot acquire a terminal anyway) *)
+Definition openat2_flags (flags : N) : N :=
+  let f := N.lor flags OPENAT2_FORCED in
+  if has f O_PATH then f else N.lor f OPENAT2_FORCED_UNLESS_PATH.
+
 (* syscalls::openat2 (syscalls.rs:677-717): own wrapper, path truncated at NUL *)
 Definition w_openat2 (dirfd : Z) (path : bytes) (flags mode resolve : N) : prog (result Z N) :=
   if negb (valid_fd dirfd) then Ret (Err EBADF) else
   if OPENAT2_NUL_EINVAL && has_nul path then fail1 dirfd EINVAL else
-  Call (Openat2 dirfd (to_c_string path) (N.lor flags OPENAT2_FORCED) mode resolve) (fun r =>
+  Call (Openat2 dirfd (to_c_string path) (openat2_flags flags) mode resolve) (fun r =>
     match as_fd r with
     | Ok n => Ret (Ok n)
     | Err e => fail1 dirfd e
